@@ -451,3 +451,7 @@ def run(rep, facts, tier):
                 ok = b.key.startswith('rtps::message_receiver::')
                 rep.check(ok, 'R17.1', 'default:%s<-%s' % (pat, b.key), 'called from MessageReceiver (default features)',
                           '%s is called from %s (default features)' % (pat, b.key), b.where(bb))
+
+    # ------------------------------------------------------------ R17.6 crossed roles (shared lint, rdv/swaplint.py)
+    from rdv import swaplint
+    swaplint.run_rule(rep, facts['security'], 'R17.6', ['rtps::message_receiver', 'security::security_plugins'])
